@@ -240,7 +240,7 @@ def make_error_model(lw, rng):
 
 
 def run(ctx):
-    lw = setup(ctx)
+    lw = setup(ctx, warm=False)
     install(lw)
     rng = ctx.rng
     itf = lw.interferometers
